@@ -80,7 +80,7 @@ class C13(Check):
                     key = {"clause": "crash_" + cls, "case": j["args"].get("case", j["kind"])}
                     if cls in ("asan", "ubsan"):
                         key["site"] = simdrv.asan_site(r.get("stderr", ""))
-                    self.add_finding(key, "worker died (%s): %s" % (cls, r.get("stderr", "")[-400:]),
+                    self.add_finding(key, "worker died (%s): %s" % (cls, simdrv.crash_summary(r)),
                                      {"property": "C13", "kind": j["kind"], "flavour": j["flavour"], "args": j["args"]})
                     continue
                 self.cov["evaluations"] += 1
